@@ -149,7 +149,9 @@ pub fn summarize(bytes: &[u8]) -> (String, Option<DhtSummary>, Option<DhtNetwork
 }
 
 enum Kind {
-    Node(Arc<TransportHandle>),
+    /// weak: the transport holds the hub (its link); a strong reference back would keep every world
+    /// alive for the life of the process
+    Node(std::sync::Weak<TransportHandle>),
     /// frames addressed to a puppet are handed to its script: (source tid hex, frame)
     Puppet(mpsc::UnboundedSender<(String, Vec<u8>)>),
 }
@@ -244,7 +246,7 @@ impl Hub {
         let h = hex::encode(tid);
         let mut g = self.inner.lock();
         g.by_addr.insert(addr, h.clone());
-        g.by_tid.insert(h, Endpoint { tid, addr, kind: Kind::Node(t), fault: FaultPlan::default() });
+        g.by_tid.insert(h, Endpoint { tid, addr, kind: Kind::Node(Arc::downgrade(&t)), fault: FaultPlan::default() });
     }
 
     /// Register a scripted endpoint; returns the receiver of frames addressed to it.
@@ -285,7 +287,7 @@ impl Hub {
             let mut g = self.inner.lock();
             self.record(&mut g, &from_hex, to_hex, &frame, "injected", Some(delay));
             g.by_tid.get(to_hex).map(|e| match &e.kind {
-                Kind::Node(t) => (Some(t.clone()), None),
+                Kind::Node(t) => (t.upgrade(), None),
                 Kind::Puppet(tx) => (None, Some(tx.clone())),
             })
         };
@@ -321,7 +323,7 @@ impl VerifLink for Hub {
             let from_addr = g.by_tid.get(from).map(|e| e.addr);
             let e = &g.by_tid[&dst_hex];
             let node = match &e.kind {
-                Kind::Node(t) => Some(t.clone()),
+                Kind::Node(t) => t.upgrade(),
                 Kind::Puppet(_) => None,
             };
             let fault = e.fault.connect.clone();
@@ -368,7 +370,7 @@ impl VerifLink for Hub {
             };
             let in_fault = e.fault.inbound.clone();
             let tgt = match &e.kind {
-                Kind::Node(t) => (Some(t.clone()), None),
+                Kind::Node(t) => (t.upgrade(), None),
                 Kind::Puppet(tx) => (None, Some(tx.clone())),
             };
             let mut delay = Self::next_jitter(&mut g);
